@@ -1121,9 +1121,21 @@ pub fn gen_bulk(prop: &str, seed: u64) -> Plan {
     }
     let base = 1000u64;
     let ttl = *rng.pick(&[700 * MS, SEC, 1500 * MS, 2 * SEC + 300 * MS]);
+    // "wide" variant: more than a thousand DISTINCT expiry seconds alive at once (sliding session
+    // TTLs), a handful of short ones among them, and a cleanup interval of several seconds
+    let wide = !backlog && rng.chance(1, 3);
+    if wide {
+        cfg.cleanup_ms = *rng.pick(&[5000u64, 8000]);
+    }
     let mut ops = Vec::new();
     for i in 0..n {
-        let t = if rng.chance(9, 10) { ttl } else { 0 };
+        let t = if wide {
+            if i % 211 == 7 { ttl } else { (1200 + i) * SEC + rng.below(SEC) }
+        } else if rng.chance(9, 10) {
+            ttl
+        } else {
+            0
+        };
         ops.push(Op::Insert { k: base + i, cost: rng.range(1, 3) as i64, ttl_ns: t, size: 1 });
         if i % 500 == 499 && !backlog {
             ops.push(Op::Wait);
@@ -1145,6 +1157,9 @@ pub fn gen_bulk(prop: &str, seed: u64) -> Plan {
     let mut tags = vec!["lockstep".to_string(), "fault_free".into(), "bulk".into()];
     if backlog {
         tags.push("backlog".into());
+    }
+    if wide {
+        tags.push("wide_ttls".into());
     }
     if matches!(prop, "C01" | "C06" | "C07" | "C08" | "C17") && rng.chance(1, 2) {
         let item = if cfg.ignore_internal_cost { 0 } else { 72 };
